@@ -116,6 +116,13 @@ class Profile:
             cdict[var] = val
 
         for key in cdict:
+            if key.startswith("fit param "):
+                # fit parameters are not part of `DEFAULTS`
+                if key.endswith("vary"):
+                    cdict[key] = cdict[key].lower() == "true"
+                else:
+                    cdict[key] = float(cdict[key])
+                continue
             default = DEFAULTS[key]
             if isinstance(default, list):
                 val = cdict[key].split(",")
@@ -204,6 +211,9 @@ def setup_profile():
             if rt not in ["absolute", "relative"]:
                 print("Please choose 'absolute' or 'relative'.")
                 continue
+            if rt == "relative":
+                # the fitter knows this range type as "relative cp"
+                rt = "relative cp"
             pf["range_type"] = rt
         break
 
@@ -213,7 +223,7 @@ def setup_profile():
     if left:
         ival[0] = float(left)
     right = input("right [µm] (currently '{}'): ".format(ival[1]))
-    if left:
+    if right:
         ival[1] = float(right)
     pf["range_x"] = list(ival*1e-6)
 
